@@ -1,13 +1,12 @@
-(* C10, clause (c): in vacuum (I2 = 0 and p2 = 0 everywhere) the grad grad B tensor is symmetric in its last two indices and
-   harmonic.  Assembles props/C10_vacuum_Bt_{a,b,c}.v, props/C10_vacuum_ode_{a,b}.v and the tangent slice (re-proved here from C10_common). *)
+(* C10 (a) symmetry in the two derivative indices and (b) gradient of div B. *)
 From Coq Require Import Reals String List Lra Lia QArith Qreals FunctionalExtensionality.
 From QSC Require Import Expr Shallow.
-From QSCGen Require Import G_init_axis G_r1_diagnostics G_calculate_r2 G_residual G_calculate_grad_grad_B_tensor.
-From QSCProps Require Import C10_spec C10_common C10_vacuum_common C10_vacuum_Bt_a C10_vacuum_Bt_b C10_vacuum_Bt_c C10_vacuum_ode_a C10_vacuum_ode_b.
+From QSCGen Require Import G_init_axis G_r1_diagnostics G_calculate_r2 G_residual G_calculate_grad_grad_B_tensor G_calculate_grad_B_tensor.
+From QSCProps Require Import C10_spec C10_common.
 Open Scope R_scope.
 Open Scope string_scope.
 
-Section Vacuum.
+Section Part.
   Context {I : Type} (O : ops I) (HD : derivation O) (S VA V1 V2 : string -> I -> R).
   Hypothesis Hadm : admissible S.
   Hypothesis HA : stage O init_axis S VA.
@@ -80,80 +79,41 @@ Section Vacuum.
     qsimp; field [Es Ep]; nz.
   Ltac two a b c d :=
     intros i; gg_entry a b; gg_entry c d; gg_locals; to_state HG; close i.
-  Hypothesis Hcst : constants S.
-  Variable VR : string -> I -> R.
-  Hypothesis HR : stage O residual S VR.
-  Hypothesis Hsig : sigma_solved O S VR.
-  Local Notation F_ebc := (C10_common.F_ebc O HD S VA V1 V2 Hadm HA H1 H2 Hcst VR HR Hsig).
-  Local Notation S_sigma := (C10_common.S_sigma O HD S VA V1 V2 Hadm HA H1 H2 Hcst VR HR Hsig).
-  Local Notation R_sig := (C10_common.R_sig O HD S VA V1 V2 Hadm HA H1 H2 Hcst VR HR Hsig).
-  Local Notation R_sig2 := (C10_common.R_sig2 O HD S VA V1 V2 Hadm HA H1 H2 Hcst VR HR Hsig).
-  Local Notation S_dY1c := (C10_common.S_dY1c O HD S VA V1 V2 Hadm HA H1 H2 Hcst VR HR Hsig).
-  Local Notation S_d2Y1c := (C10_common.S_d2Y1c O HD S VA V1 V2 Hadm HA H1 H2 Hcst VR HR Hsig).
-  Local Notation sigE := (C10_common.sigE S).
-  Local Notation sigE2 := (C10_common.sigE2 S).
-  Hypothesis Hvac : vacuum_hyp S.
-  Hypothesis Hode : r2_solved V2.
-  Ltac close2 i := rewrite ?S_d2Y1c, ?S_dY1c; close i.
-  Lemma sl_201 : forall i, S "s.grad_grad_B_2_0_1" i = S "s.grad_grad_B_2_1_0" i.
-  Proof. intros i; gg_entry "s.grad_grad_B_2_0_1" "grad_grad_B_2_0_1#2"; gg_entry "s.grad_grad_B_2_1_0" "grad_grad_B_2_1_0#2"; gg_locals; to_state HG; close2 i. Qed.
-  Lemma sl_202 : forall i, S "s.grad_grad_B_2_0_2" i = S "s.grad_grad_B_2_2_0" i.
-  Proof. intros i; gg_entry "s.grad_grad_B_2_0_2" "grad_grad_B_2_0_2#2"; gg_entry "s.grad_grad_B_2_2_0" "grad_grad_B_2_2_0#2"; gg_locals; to_state HG; close2 i. Qed.
-  Lemma sl_212 : forall i, S "s.grad_grad_B_2_1_2" i - S "s.grad_grad_B_2_2_1" i = 2 * sG i * spsi i * S "s.I2" i * kap i.
-  Proof. intros i; gg_entry "s.grad_grad_B_2_1_2" "grad_grad_B_2_1_2#2"; gg_entry "s.grad_grad_B_2_2_1" "grad_grad_B_2_2_1#2"; gg_locals; to_state HG; close2 i. Qed.
-
-  Theorem C10_vacuum_Bt : vacuum_Bt_part S.
+  Lemma sym_010 : forall i, S "s.grad_grad_B_0_1_0" i = S "s.grad_grad_B_1_0_0" i.
+  Proof. two "s.grad_grad_B_0_1_0" "grad_grad_B_0_1_0#2" "s.grad_grad_B_1_0_0" "grad_grad_B_1_0_0#2". Qed.
+  Lemma sym_011 : forall i, S "s.grad_grad_B_0_1_1" i = S "s.grad_grad_B_1_0_1" i.
+  Proof. two "s.grad_grad_B_0_1_1" "grad_grad_B_0_1_1#2" "s.grad_grad_B_1_0_1" "grad_grad_B_1_0_1#2". Qed.
+  Lemma sym_012 : forall i, S "s.grad_grad_B_0_1_2" i = S "s.grad_grad_B_1_0_2" i.
+  Proof. two "s.grad_grad_B_0_1_2" "grad_grad_B_0_1_2#2" "s.grad_grad_B_1_0_2" "grad_grad_B_1_0_2#2". Qed.
+  Lemma sym_020 : forall i, S "s.grad_grad_B_0_2_0" i = S "s.grad_grad_B_2_0_0" i.
+  Proof. two "s.grad_grad_B_0_2_0" "grad_grad_B_0_2_0#2" "s.grad_grad_B_2_0_0" "grad_grad_B_2_0_0#2". Qed.
+  Lemma sym_021 : forall i, S "s.grad_grad_B_0_2_1" i = S "s.grad_grad_B_2_0_1" i.
+  Proof. two "s.grad_grad_B_0_2_1" "grad_grad_B_0_2_1#2" "s.grad_grad_B_2_0_1" "grad_grad_B_2_0_1#2". Qed.
+  Lemma sym_022 : forall i, S "s.grad_grad_B_0_2_2" i = S "s.grad_grad_B_2_0_2" i.
+  Proof. two "s.grad_grad_B_0_2_2" "grad_grad_B_0_2_2#2" "s.grad_grad_B_2_0_2" "grad_grad_B_2_0_2#2". Qed.
+  Lemma sym_120 : forall i, S "s.grad_grad_B_1_2_0" i = S "s.grad_grad_B_2_1_0" i.
+  Proof. two "s.grad_grad_B_1_2_0" "grad_grad_B_1_2_0#2" "s.grad_grad_B_2_1_0" "grad_grad_B_2_1_0#2". Qed.
+  Lemma sym_121 : forall i, S "s.grad_grad_B_1_2_1" i = S "s.grad_grad_B_2_1_1" i.
+  Proof. two "s.grad_grad_B_1_2_1" "grad_grad_B_1_2_1#2" "s.grad_grad_B_2_1_1" "grad_grad_B_2_1_1#2". Qed.
+  Lemma sym_122 : forall i, S "s.grad_grad_B_1_2_2" i = S "s.grad_grad_B_2_1_2" i.
+  Proof. two "s.grad_grad_B_1_2_2" "grad_grad_B_1_2_2#2" "s.grad_grad_B_2_1_2" "grad_grad_B_2_1_2#2". Qed.
+  Theorem C10_sym12_p : sym12 S.
   Proof.
-    intros i.
-    pose proof (C10_vacuum_Bt_a O HD S VA V1 V2 Hadm HA H1 H2 VG HG Hcst VR HR Hsig Hvac i) as A.
-    destruct (C10_vacuum_Bt_b O HD S VA V1 V2 Hadm HA H1 H2 VG HG Hcst VR HR Hsig Hvac i) as (B1 & B2).
-    destruct (C10_vacuum_Bt_c O HD S VA V1 V2 Hadm HA H1 H2 VG HG Hcst VR HR Hsig Hvac i) as (C1 & C2).
-    repeat split; assumption.
-  Qed.
-  Theorem C10_vacuum_ode : vacuum_ode_part S.
-  Proof.
-    intros i.
-    destruct (C10_vacuum_ode_a O HD S VA V1 V2 Hadm HA H1 H2 VG HG Hcst VR HR Hsig Hvac Hode i) as (A1 & A2).
-    destruct (C10_vacuum_ode_b O HD S VA V1 V2 Hadm HA H1 H2 VG HG Hcst VR HR Hsig Hvac Hode i) as (B1 & B2).
-    repeat split; assumption.
-  Qed.
-
-  Theorem C10_sym23 : sym23 S.
-  Proof.
-    intros i a b c Ha Hb Hc.
-    destruct (C10_vacuum_Bt i) as (B1 & B2 & B3 & B4 & _).
-    destruct (C10_vacuum_ode i) as (D1 & D2 & _).
-    pose proof (sl_201 i) as T1. pose proof (sl_202 i) as T2. pose proof (sl_212 i) as T3.
-    rewrite (proj1 Hvac) in T3. unfold G in *. cbn [dg append] in *.
+    intros i a b c Ha Hb Hc. unfold G.
     destruct a as [|[|[|a]]]; try lia; destruct b as [|[|[|b]]]; try lia; destruct c as [|[|[|c]]]; try lia;
-      cbn [dg append]; first [reflexivity|assumption|symmetry; assumption|lra].
+      first [reflexivity|apply sym_010|apply sym_011|apply sym_012|apply sym_020|apply sym_021|apply sym_022|apply sym_120|apply sym_121|apply sym_122|symmetry; apply sym_010|symmetry; apply sym_011|symmetry; apply sym_012|symmetry; apply sym_020|symmetry; apply sym_021|symmetry; apply sym_022|symmetry; apply sym_120|symmetry; apply sym_121|symmetry; apply sym_122].
   Qed.
-  Theorem C10_harmonic : harmonic S.
+  Ltac three a b c d e f :=
+    intros i; gg_entry a b; gg_entry c d; gg_entry e f; gg_locals; to_state HG; close i.
+  Lemma div_0 : forall i, S "s.grad_grad_B_0_0_0" i + S "s.grad_grad_B_0_1_1" i + S "s.grad_grad_B_0_2_2" i = 0.
+  Proof. three "s.grad_grad_B_0_0_0" "grad_grad_B_0_0_0#2" "s.grad_grad_B_0_1_1" "grad_grad_B_0_1_1#2" "s.grad_grad_B_0_2_2" "grad_grad_B_0_2_2#2". Qed.
+  Lemma div_1 : forall i, S "s.grad_grad_B_1_0_0" i + S "s.grad_grad_B_1_1_1" i + S "s.grad_grad_B_1_2_2" i = 0.
+  Proof. three "s.grad_grad_B_1_0_0" "grad_grad_B_1_0_0#2" "s.grad_grad_B_1_1_1" "grad_grad_B_1_1_1#2" "s.grad_grad_B_1_2_2" "grad_grad_B_1_2_2#2". Qed.
+  Lemma div_2 : forall i, S "s.grad_grad_B_2_0_0" i + S "s.grad_grad_B_2_1_1" i + S "s.grad_grad_B_2_2_2" i = 0.
+  Proof. three "s.grad_grad_B_2_0_0" "grad_grad_B_2_0_0#2" "s.grad_grad_B_2_1_1" "grad_grad_B_2_1_1#2" "s.grad_grad_B_2_2_2" "grad_grad_B_2_2_2#2". Qed.
+  Theorem C10_divfree_p : divfree S.
   Proof.
-    intros i c Hc.
-    destruct (C10_vacuum_Bt i) as (_ & _ & _ & _ & B5).
-    destruct (C10_vacuum_ode i) as (_ & _ & D3 & D4).
-    destruct c as [|[|[|c]]]; try lia; assumption.
+    intros i a Ha. unfold G.
+    destruct a as [|[|[|a]]]; try lia; first [apply div_0|apply div_1|apply div_2].
   Qed.
-End Vacuum.
-
-(* clause (c) of the property, closed form *)
-Theorem C10_vacuum :
-  forall (I : Type) (O : ops I), derivation O ->
-  forall S VA V1 V2 VG VR : string -> I -> R,
-    admissible S -> constants S -> vacuum_hyp S ->
-    stage O init_axis S VA ->
-    stage O r1_diagnostics_h0 S V1 \/ stage O r1_diagnostics_hN S V1 ->
-    stage O calculate_r2_h0 S V2 \/ stage O calculate_r2_hN S V2 -> r2_solved V2 ->
-    stage O residual S VR -> sigma_solved O S VR ->
-    stage O calculate_grad_grad_B_tensor S VG ->
-    sym23 S /\ harmonic S.
-Proof.
-  intros I O HD S VA V1 V2 VG VR Hadm Hcst Hvac HA H1 H2 Hode HR Hsig HG. split.
-  - exact (C10_sym23 O HD S VA V1 V2 Hadm HA H1 H2 VG HG Hcst VR HR Hsig Hvac Hode).
-  - exact (C10_harmonic O HD S VA V1 V2 Hadm HA H1 H2 VG HG Hcst VR HR Hsig Hvac Hode).
-Qed.
-Check C10_sym23. Check C10_harmonic. Check C10_vacuum.
-Print Assumptions C10_sym23.
-Print Assumptions C10_harmonic.
-Print Assumptions C10_vacuum.
+End Part.
